@@ -6,6 +6,8 @@ from harness import world as W
 S = load()
 
 PROPERTY = "C01"
+LEVEL_TEXT = 'Exploration of operation histories: every generated program (3-30 steps quick / up to 60 thorough, pool of <=10 related live objects) satisfies the frame condition on typed snapshots; a violation shrinks to a minimal program. No proof of absence beyond the generated lengths and value alphabet.'
+LEVEL_NOTE = "Trusts the model's view relation (which handle is a live column view of which table) and Python object identity of the harness' own handles; serif's internal sharing is never trusted."
 DESIGN_REF = "DESIGN.md §5 C01"
 ENGINE = "world"
 TECHNIQUE = "model-based property testing over operation histories (generated programs with swarm-enabled operation classes, interpreted over a pool of live related objects); oracle = frame condition on typed snapshots of every live object, with the view relation kept by the model"
